@@ -1301,3 +1301,82 @@ def _declare_at_single_assignment(fn, dids):
         for ds in walk(fn["body"]):
             if ds.get("k") == "DeclStmt" and ds is not newdecl and any(d is decl for d in ds.get("decls", [])):
                 ds["decls"] = [d for d in ds["decls"] if d is not decl]
+
+
+def if_convert_and_sink_declarations(prog, repo_prefix):
+    """Two exact local rewrites, applied to every repository function:
+    (1) `T v = A; if(c) v = B;` (consecutive statements; c, A, B without effects, c and B do not mention v; v is written nowhere
+        else) -> `T v = c ? B : A;`
+    (2) a result variable created by the inliner (`T r;` followed later by exactly one unconditional `r = E;` that precedes every
+        read) is declared at that assignment (`T r = E;`).
+    Both give every read of the variable the same value as before; they let rules see `v` as a single-assignment local."""
+    total = 0
+    for fn in _repo_fns(prog, repo_prefix):
+        body = fn["body"]
+        writes = {}
+        for x in walk(body):
+            k = x.get("k")
+            t = None
+            if (k == "BinaryOperator" and x.get("op") == "=") or k == "CompoundAssignOperator":
+                t = strip(x["c"][0])
+            elif k == "UnaryOperator" and x.get("op") in ("++", "--", "post++", "post--", "pre++", "pre--", "&") and x.get("c"):
+                t = strip(x["c"][0])
+            if t is not None and t.get("k") == "DeclRefExpr" and (t.get("ref") or {}).get("did") is not None:
+                writes.setdefault(t["ref"]["did"], []).append(x)
+        refbound = {strip(v["init"])["ref"]["did"] for v in walk(body) if v.get("k") == "Var" and (v.get("t") or "").rstrip().endswith("&") and isinstance(v.get("init"), dict) and strip(v["init"]).get("k") == "DeclRefExpr" and (strip(v["init"]).get("ref") or {}).get("did") is not None}
+        changed = 0
+
+        def mentions(e, did):
+            return any(x.get("k") == "DeclRefExpr" and (x.get("ref") or {}).get("did") == did for x in walk(e))
+
+        def visit(n):
+            nonlocal changed
+            for key in _SUBKEYS + ("var",):
+                if isinstance(n.get(key), dict):
+                    visit(n[key])
+            for key in ("decls", "handlers"):
+                for x in n.get(key, []) or []:
+                    if isinstance(x, dict):
+                        visit(x)
+            if isinstance(n.get("c"), list):
+                for x in n["c"]:
+                    if isinstance(x, dict):
+                        visit(x)
+                if n.get("k") == "CompoundStmt":
+                    out, i = [], 0
+                    c = n["c"]
+                    while i < len(c):
+                        s0 = c[i]
+                        s1 = c[i + 1] if i + 1 < len(c) else None
+                        done = False
+                        if s0.get("k") == "DeclStmt" and len(s0.get("decls", [])) == 1 and s0["decls"][0].get("k") == "Var" and isinstance(s0["decls"][0].get("init"), dict) \
+                                and isinstance(s1, dict) and s1.get("k") == "IfStmt" and not isinstance(s1.get("else"), dict) and "condvar" not in s1:
+                            v = s0["decls"][0]
+                            then = s1["then"]
+                            st = then.get("c", []) if then.get("k") == "CompoundStmt" else [then]
+                            if len(st) == 1:
+                                a = strip(st[0])
+                                if a.get("k") == "BinaryOperator" and a.get("op") == "=" and strip(a["c"][0]).get("k") == "DeclRefExpr" and strip(a["c"][0])["ref"].get("did") == v["did"] \
+                                        and len(writes.get(v["did"], [])) == 1 and v["did"] not in refbound and not (v.get("t") or "").rstrip().endswith("&") \
+                                        and _effect_free_calls_ok(s1["cond"]) and _effect_free_calls_ok(a["c"][1]) and _effect_free_calls_ok(v["init"]) \
+                                        and not mentions(s1["cond"], v["did"]) and not mentions(a["c"][1], v["did"]) \
+                                        and re.match(r"^(const )?(unsigned |signed |long |short )*(int|long|short|char|bool|double|float|size_t|std::size_t|unsigned|unsigned int|unsigned long)$", (v.get("t") or "").strip()):
+                                    nv = dict(v)
+                                    nv["init"] = {"k": "ConditionalOperator", "t": v.get("t"), "l": s1.get("l"), "if_converted": True, "c": [s1["cond"], a["c"][1], v["init"]]}
+                                    out.append(dict(s0, decls=[nv]))
+                                    writes[v["did"]] = []
+                                    i += 2
+                                    changed += 1
+                                    done = True
+                        if not done:
+                            out.append(s0)
+                            i += 1
+                    n["c"] = out
+        visit(body)
+        res = {v["did"] for d in walk(body) if d.get("k") == "DeclStmt" and d.get("result_of_inlined_call") for v in d.get("decls", []) if isinstance(v, dict) and not isinstance(v.get("init"), dict)}
+        if res:
+            _declare_at_single_assignment(fn, res)
+        if changed or res:
+            fn.pop("_stable_locals", None)
+        total += changed
+    return total
